@@ -182,7 +182,7 @@ def _step_factory(uses: dict):
     return step
 
 
-CROSSCHECK_MAX_STMTS = 5
+CROSSCHECK_MAX_PATHS = 2000
 
 
 def model(body) -> dict:
@@ -193,12 +193,12 @@ def model(body) -> dict:
     anything; `y = x` then leaves y undefined on that path as well), so that all
     problems of the program are collected.
 
-    For small programs the fixpoint exploration is cross-checked against a plain
+    For programs with few paths the fixpoint exploration is cross-checked against a plain
     path-by-path enumeration (a disagreement is a harness error, not a finding)."""
     uses: dict = {}
     init = ("U",) * len(VARS)
     ex = pg.explore_paths(body, init, _step_factory(uses))
-    if pg.count_stmts(body) <= CROSSCHECK_MAX_STMTS:
+    if pg.path_count_bound(body, 4) <= CROSSCHECK_MAX_PATHS:
         uses2: dict = {}
         bf, be = pg.brute_force_paths(body, init, _step_factory(uses2), max_iter=4)
         if be != ex.exits or uses2 != uses or any(bf[p] != ex.before[p] for p in bf):
@@ -306,6 +306,10 @@ def check_one(item) -> dict:
         m = model(body)
         rec["states"], rec["transitions"] = m["ex"].n_states, m["ex"].n_transitions
         if out.kind == "crash":
+            if py == "unbound":
+                rec["viol"] = ("literal:crash-instead-of-rejection",
+                               "CPython raises UnboundLocalError/NameError; check() neither accepts nor "
+                               f"rejects as 'not defined' but crashes ({out.exc[:100]})")
             return rec
         if py == "unbound":
             if out.kind == "ok":
@@ -334,6 +338,13 @@ def check_one(item) -> dict:
     exp = m["classes"]
     rec["exp"] = sorted(exp)
     if out.kind == "crash":
+        # The statement wants the use *rejected as 'not defined'* (resp. for differing
+        # types): an internal error is not that rejection.  (A crash of a program the
+        # model accepts is outside this property: counted only.)
+        if exp:
+            rec["viol"] = (f"{_fam(family)}:crash-instead-of:{'+'.join(sorted(exp))}",
+                           f"model expects {sorted(exp)} ({m['detail'][0]}) but check() crashes "
+                           f"({out.exc[:100]})")
         return rec
     dead_lines = set()
     if family.startswith("dead"):
@@ -368,7 +379,12 @@ def check_one(item) -> dict:
 
 
 def _fam(family: str) -> str:
-    return family
+    """Coarse family group used in violation keys (one defect, one key)."""
+    if family == "nested":
+        return "nested"
+    if family.startswith("dead"):
+        return "unreachable-code"
+    return "flat"
 
 
 def _safe_check(item):
@@ -412,7 +428,6 @@ def run(ctx) -> dict:
         nontrivial += bool(r["nontrivial"])
         if r["bucket"] == "crash":
             crashes.append({"prog": pg.show(item[1]), "exc": r.get("crash")})
-            continue
         validated += 1
         if r["viol"]:
             key, what = r["viol"]
